@@ -194,6 +194,14 @@ class C07(object):
             # the grains move between two assignments (refinement, set_ubi), as in the makemap sequence
             # refine -> save -> assign again: the second assignment must use the grains as they are then
             desc["via_refinepositions"] = rnd.choice([0, 0, 0, 1, 3]) if (ngr and n >= 3) else 0
+            if rnd.random() < 0.4:
+                # the geometry was something else when the object assigned before (a parameter file loaded later, a fitted
+                # tilt): the assignment that counts is done with the parameters as they are then
+                nm_ = rnd.choice(["tilt_x", "tilt_x", "tilt_y", "tilt_z", "distance", "y_center", "z_center", "wedge", "chi",
+                                  "wavelength", "y_size", "omegasign", "o22"])
+                desc["pars_history"] = [nm_, {"tilt_x": 0.03, "tilt_y": 0.02, "tilt_z": -0.02, "distance": 4000.0, "y_center": 9.0,
+                                              "z_center": -7.0, "wedge": 1.5, "chi": -2.0, "wavelength": 0.01, "y_size": 5.0}.get(nm_, 0.0),
+                                        rnd.choice(["set", "set", "dict", "update"])]
             if rnd.random() < 0.5:
                 desc["assign_history"] = {"kind": rnd.choice(["perturbed", "perturbed", "other"]), "seed": rnd.getrandbits(32),
                                           "how": rnd.choice(["set_ubi", "set_ubi", "new_grain"])}
@@ -482,6 +490,21 @@ class C07(object):
                 rg.ubisread[names[j]] = np.ascontiguousarray(u0)
                 rg.translationsread[names[j]] = None if gi in desc.get("no_translation", []) else trans[gi]
             rg.generate_grains()
+            ph = desc.get("pars_history")
+            if ph:
+                true_v = rg.parameterobj.parameters[ph[0]]
+                other_v = -true_v if ph[0] in ("omegasign", "o22") else true_v + ph[1]
+
+                def put_(v_):
+                    if ph[2] == "set":
+                        rg.parameterobj.set(ph[0], v_)
+                    elif ph[2] == "dict":
+                        rg.parameterobj.parameters[ph[0]] = v_
+                    else:
+                        rg.parameterobj.parameters.update({ph[0]: v_})
+                put_(other_v)
+                rg.assignlabels(quiet=True)
+                put_(true_v)
             if desc.get("via_refinepositions") and not ah:
                 # the makemap story: positions are refined right after loading; the competing assignment this starts with is
                 # done with the user's tolerance, and its labels and errors are what the columns hold afterwards
@@ -509,8 +532,10 @@ class C07(object):
                     g0 = rg.grains[(names[0], "s")]
                     rg.compute_gv(g0)
                     mC = np.ascontiguousarray(g0.ubi)
+                    rC_obj = None
                     try:
-                        rC = np.array(rg.refine(mC))
+                        rC_obj = rg.refine(mC)
+                        rC = np.array(rC_obj)
                     except Exception:
                         rC = None
                     if rC is not None:
@@ -520,6 +545,16 @@ class C07(object):
                                 refine_layout_fail = "refine() of a Fortran-ordered matrix differs from refine() of the same matrix in C order"
                         except Exception as e_:
                             refine_layout_fail = "refine() raises %s for a Fortran-ordered matrix it refines in C order: %s" % (type(e_).__name__, str(e_)[:80])
+                        if refine_layout_fail is None and len(order) > 1:
+                            # a result the caller kept stays what it was when refine() is called for the next grain
+                            try:
+                                g1 = rg.grains[(names[1], "s")]
+                                rg.compute_gv(g1)
+                                rg.refine(np.ascontiguousarray(g1.ubi))
+                            except Exception:
+                                pass
+                            if not np.array_equal(np.asarray(rC_obj), rC, equal_nan=True):
+                                refine_layout_fail = "the matrix refine() returned for one grain changed when refine() was called for the next grain"
                 except Exception:
                     pass
         st = sim.stats()
@@ -549,7 +584,8 @@ class C07(object):
             viol = {"class": "wrong-error", "key": desc["entry"] + ":wrong-error",
                     "detail": "assignlabels: peak %d stores error %.12g, minimum over grains is %.12g" % (k, drl[k], mbest[k])}
         if viol is None and refine_layout_fail:
-            viol = {"class": "raises", "key": desc["entry"] + ":refine-layout", "detail": refine_layout_fail}
+            viol = {"class": "raises" if " raises " in refine_layout_fail else "refine-result-differs", "key": desc["entry"] + ":refine-layout",
+                    "detail": refine_layout_fail}
         if viol is None and tpg is not None and n and ngr:
             # the per-grain two-theta / eta columns: for a peak assigned to a grain, the angles seen from that grain's position
             for j_, gi_ in enumerate(order):
@@ -571,6 +607,7 @@ class C07(object):
         meas = enginea.run_measures(st, cfg)
         meas["route"] = {"assign": 1}
         meas["assignments_after_the_grains_moved"] = 1 if desc.get("assign_history") else 0
+        meas["assignments_after_a_parameter_changed"] = 1 if desc.get("pars_history") else 0
         meas["grain_names_not_0..n-1"] = 1 if desc.get("grain_names") else 0
         meas["assignment_via_refinepositions"] = 1 if (desc.get("via_refinepositions") and not desc.get("assign_history")) else 0
         contested = int((((E < tol * tol) & (E < 1.0)).sum(axis=0) >= 2).sum()) if E.size else 0
